@@ -202,6 +202,7 @@ func c07histories(env sched.Env) *sched.Report {
 					sched.Progress(cs)
 					sig, detail := c07run(cs)
 					rep.Execs++
+					sched.Progress(nil)
 					rep.Transitions += int64(len(ops))
 					if sig != "" {
 						rep.Outcomes["violation: "+sig]++
@@ -232,6 +233,7 @@ func c07histories(env sched.Env) *sched.Report {
 		cs := c07case{Ops: h}
 		sig, detail := c07run(cs)
 		rep.Execs++
+		sched.Progress(nil)
 		if sig != "" && !sigs[sig] {
 			sigs[sig] = true
 			rep.Violations = append(rep.Violations, sched.CustomViolation("C07/histories", sig, detail, cs))
